@@ -22,7 +22,8 @@ ASSUMPTIONS = [
     "image for an endpoint is tested on every run, not proved (provenance hypothesis of encode_injective)",
     "the field tuple of an Address is read through its own accessors (Host() via inet_pton, Port(), IsV6(), %scope)",
 ]
-TRUSTED = ["libstdc++ std::map / std::unordered_map / hash<string_view> (modelled as sorted list / bucket list / function of the bytes)"]
+TRUSTED = ["tools/cxx2lean.py (source-derived tie, DESIGN.md 0.7): clang-14 JSON AST, chrono unit semantics read from the desugared types, unbounded Int for signed arithmetic (overflow = UB), abstract memcmp / container queries",
+           "libstdc++ std::map / std::unordered_map / hash<string_view> (modelled as sorted list / bucket list / function of the bytes)"]
 ALL_TAGS = ["connectvia", "parse", "pair", "port", "locals", "respell", "udp.plain", "udp.buf", "udp.async", "dgram",
             "acceptor.plain", "acceptor.async", "connect.plain", "connect.buf", "connect.async", "close",
             "v4", "v6", "scoped", "cmp.eq", "cmp.eq.xprov", "cmp.lt", "cmp.gt", "cmp.mixed", "cmpall", "maps"]
